@@ -298,7 +298,9 @@ theorem fKey_flag (w : World) (layout : Layout) (cfg : Cfg) (s : FState) (key mo
   unfold fKey
   split
   · exact (returned_ansi_flag w cfg {} s).2.2
-  · exact Or.inl (fCreate_flag _ _ _)
+  · split
+    · exact Or.inr rfl
+    · exact Or.inl (fCreate_flag _ _ _)
 
 /-- … and a backspace (fixed) -/
 theorem fBackspace_flag (w : World) (cfg : Cfg) (s : FState) (ctrl : Bool) :
